@@ -68,7 +68,7 @@ DOM = {
     'Categorical': {'ln_weights': 'lnsimplex'},
     'Cauchy': {'loc': 'real', 'scale': 'pos'},
     'ChiSquared': {'k': 'pos'},
-    'Crp': {'alpha': 'pos', 'n': 'nat1'},
+    'Crp': {'alpha': 'pos', 'n': 'nat1s'},
     'Dirichlet': {'alphas': 'poslist'},
     'SymmetricDirichlet': {'alpha': 'pos', 'k': 'nat1s'},
     'Exponential': {'rate': 'pos'},
